@@ -507,6 +507,32 @@ class Opaque:
         return f"<{self.what}>"
 
 
+class OtherStr:
+    """An arbitrary Python string that is none of `allowed` (the documented values of an option).  Only comparisons with string literals
+    and membership in lists / tuples / dicts of literals are modelled: against a documented value the answer is False for every such string;
+    anything whose answer depends on the characters (substring tests, case folding, a literal outside the documented values) is out of reach."""
+    qv_value = True
+
+    def __init__(self, allowed, name="option"):
+        self.allowed, self.name = frozenset(allowed), name
+
+    def eq(self, other):
+        if isinstance(other, str):
+            if other in self.allowed:
+                return False
+            raise OutOfReach(f"comparison of an arbitrary string with {other!r}, which is not one of the documented values {sorted(self.allowed)}")
+        if isinstance(other, OtherStr):
+            raise OutOfReach("comparison of two arbitrary strings")
+        if other is None or isinstance(other, (int, float, tuple, list, dict)) or type(other).__name__ in ("SInt", "SReal", "Fraction"):
+            return False                      # a str never equals a number / None / container
+        raise OutOfReach(f"comparison of an arbitrary string with {type(other).__name__}")
+
+    __hash__ = None
+
+    def __repr__(self):
+        return f"<any string other than {sorted(self.allowed)}>"
+
+
 class SymList:
     """A Python list of symbolic length: an abstract prefix of `prefix_len` entries (described only by
     the loop invariant) followed by the items appended on the current path.  Only append / len / [-1]
